@@ -14,7 +14,7 @@ func c15Stmts(tag string, k int) string {
 	var sb strings.Builder
 	for i := 0; i < k; i++ {
 		n := nd.From(tag+"n"+strconv.Itoa(i), 1, "abA")
-		switch nd.Choose(tag+"k"+strconv.Itoa(i), 0, 5) {
+		switch nd.Choose(tag+"k"+strconv.Itoa(i), 0, 6) {
 		case 0:
 			sb.WriteString(n + "\n")
 		case 1:
@@ -27,6 +27,8 @@ func c15Stmts(tag string, k int) string {
 			sb.WriteString(n + ".shape: circle\n")
 		case 5:
 			sb.WriteString("*.style.opacity: 0.4\n")
+		case 6:
+			sb.WriteString("(* -> *)[*].style.stroke-width: 4\n")
 		}
 	}
 	return sb.String()
@@ -64,6 +66,8 @@ func VerifC15Boards() {
 	s2 := "b: T\n"
 	if nd.Param("S2", 0) > 0 {
 		s2 = c15Stmts("t", 1)
+	} else if nd.Bool("same") {
+		s2 = s1 // sibling boards making the same change
 	}
 	post := "e\n"
 	kind := []string{"scenarios", "steps", "layers"}[nd.Choose("kind", 0, 2)]
